@@ -209,8 +209,8 @@ func c17(c *Ctx) {
 			}
 		}
 	}
-	nPlay := c.Size(120, 4000)
-	nSynth := c.Size(900, 30000)
+	nPlay := c.Size(120, 24000)
+	nSynth := c.Size(900, 180000)
 	sampled := 0
 	forEachGame(c, "c17", nPlay, 80, nSynth, func(g Game) {
 		p := engPos(g.Start.FEN())
